@@ -22,8 +22,8 @@ func init() {
 }
 
 func Create(engine engine.Engine, owner key.TargetID, lc info.LightCone) {
-	engine.Events().BattleStart.Subscribe(func(event event.BattleStart) {
-		for char := range event.CharInfo {
+	engine.Events().BattleStart.Subscribe(func(_ event.BattleStart) {
+		for _, char := range engine.Characters() {
 			engine.ModifyEnergy(info.ModifyAttribute{
 				Key:    FineFruit,
 				Target: char,
